@@ -77,6 +77,14 @@ struct PdoCfgRun : NodeEnv {
             std::vector<uint8_t> img2 = w.image(0); size_t off = 0; for (auto &sp : w.s[0].specs) { size_t len = w.bytes(0, sp.idx, sp.sub).size(); bool mapped = expv.count({sp.idx, sp.sub}) > 0; if (!mapped && memcmp(&img[off], &img2[off], len) != 0) { fail("cfg/rpdo-wrote-unmapped-object", "RPDO " + std::to_string(n) + " changed " + hex(sp.idx) + ":" + std::to_string(sp.sub) + " which it does not map"); return; } off += len; }
             cov.hit("rpdo-activation-probed");
         }
+        // one SYNC: exactly the valid TPDOs whose *stored* transmission type is synchronous may answer it (type 1: must; 2..240: may, the count runs from the activation; 254/255: must not)
+        if (v.ok) {
+            std::map<uint32_t, std::pair<int, int>> expc; bool any = false;   // id -> (mandatory, optional)
+            for (int n = 0; n < nT; n++) { if (!pdoValid(true, n)) continue; uint8_t type = (uint8_t)w.raw(0, comIdx(true, n), 2); uint32_t id = w.raw(0, comIdx(true, n), 1) & 0x7FF; auto &e = expc[id]; if (type == 1) e.first++; else if (type >= 2 && type <= 240) e.second++; else if (type < 254) e.second += 2; any = true; }
+            if (any) { Fx fx = deliver(Frame(0x80, 0, {})); std::map<uint32_t, int> got; for (auto &t : fx.tx) got[t.id]++;
+                for (auto &e : expc) { int g = got.count(e.first) ? got[e.first] : 0; if (g < e.second.first || g > e.second.first + e.second.second) { fail("cfg/tpdo-sync-behaviour", "after " + std::string(when) + " a SYNC is answered by " + std::to_string(g) + " frame(s) on " + hex(e.first) + ", the stored transmission types give " + std::to_string(e.second.first) + (e.second.second ? ".." + std::to_string(e.second.first + e.second.second) : "")); return; } }
+                cov.hit("sync-probed-after-activation"); }
+        }
     }
     void op(const Op &o) {
         const std::string &k = o.k;
